@@ -1,7 +1,7 @@
-SPECIFICATION SpecNums
+SPECIFICATION SpecLists
 CONSTANTS
-  Bug = ""
-  N0 = 0
+  Bug = "StretchOrderDropped"
+  N0 = 2
   N1 = 0
   N2 = 0
   L1 = 0
@@ -11,7 +11,7 @@ CONSTANTS
   Rich = FALSE
   TextLen = 0
   Chars = {}
-  IntParts = {0, 16383}
+  IntParts = {}
   Sample = 1
-INVARIANTS InvScanPrint InvUnitsAsInTeX
+INVARIANTS InvRoundTrip
 CHECK_DEADLOCK FALSE
